@@ -1,0 +1,11 @@
+//go:build verif
+
+package wallet
+
+import "github.com/elnosh/gonuts/wallet/storage"
+
+// VerifWrapDB replaces the wallet's storage by wrap(current storage).
+// Only compiled with the `verif` build tag; used by external runtime monitors.
+func (w *Wallet) VerifWrapDB(wrap func(storage.WalletDB) storage.WalletDB) {
+	w.db = wrap(w.db)
+}
